@@ -110,7 +110,7 @@ impl Prop for C16 {
     }
 
     fn cases(&self, tier: Tier) -> u32 {
-        tier.pick(40_000, 600_000)
+        tier.pick(40_000, 5_000_000)
     }
 
     fn strategy(&self, _ctx: &Ctx) -> BoxedStrategy<ScoreCase> {
